@@ -489,12 +489,14 @@ LOOP:
 			}
 			verifEmit("launch", g, v.ID, "run")
 			go func(ctx context.Context, done chan IDErr, v *Vertex) {
+				verifEmit("acquiring", g, v.ID, "")
 				semaphore <- struct{}{}
 				verifEmit("acquired", g, v.ID, "")
 				defer func() { <-semaphore }()
 				defer verifEmit("releasing", g, v.ID, "")
 				Logger.Printf(g.colorInfo("Running Task ")+g.colorInfoBold("%s:%s\n"), g.Name, v.ID)
 				start := time.Now()
+				verifEmit("locking", g, v.ID, "")
 				v.Task.Lock()
 				verifEmit("locked", g, v.ID, "")
 				defer v.Task.Unlock()
